@@ -87,7 +87,10 @@ func pbUsers(us []User) map[string]*appctlpb.User {
 		if u.HashedHex != "" {
 			m[u.Name] = &appctlpb.User{Name: proto.String(u.Name), HashedPassword: proto.String(u.HashedHex), Quotas: u.Quotas}
 		} else {
-			m[u.Name] = &appctlpb.User{Name: proto.String(u.Name), Password: proto.String(u.Password), Quotas: u.Quotas}
+			m[u.Name] = &appctlpb.User{Name: proto.String(u.Name), Quotas: u.Quotas}
+			if u.Password != "" {
+				m[u.Name].Password = proto.String(u.Password) // a user record may carry no password at all
+			}
 		}
 	}
 	return m
